@@ -18,6 +18,22 @@ PROP = dict(
                      '(the kernel dereferences its physical address)',
                      'frame numbers < 2^40 and flags outside bits 12..51 (x86-64 entry format; D13 is a domain boundary)',
                      'pages outside the recursive slot (top-level index 511)'],
-        level_text='PLACEHOLDER',
-        level_note='PLACEHOLDER',
+        level_text='Lean theorems over an executable model of map.go/pdt.go with an explicit physical memory and a hardware MMU walk: '
+                   'recursive_window (the entry address walk computes at every level dereferences, through the MMU from CR3, to the right '
+                   'word of the right table - the recursive-mapping trick is proved, also for an inactive table swapped into slot 511), '
+                   'translate_correct (Translate = the hardware walk, for every address), map_refines_partial / unmap_refines / '
+                   'unmap_unmapped (exact post-state: one word changes, hardware view of the page, flush list, no allocation), '
+                   'other_pages_unchanged (frame rule for the hardware walk), inactive_leaves_active_bit_identical_partial, region_pages, '
+                   'setframe_needs_40_bits (negative witness D13). The model is tied to the Go code by regenerated constants (a changed '
+                   'shift or mask breaks the proofs) and by a differential run of the real code over a software MMU with a full '
+                   'physical-memory comparison after every call; the property statement is evaluated by an independent oracle on the '
+                   'implementation\'s page tables.',
+        level_note='Partial: the theorems about Map cover the case where the three upper table levels of the page exist; creation of new '
+                   'levels (allocate, link, zero), allocator failure, and the induction over whole histories are NOT proved - they are '
+                   'carried by the correspondence run (model = code on every generated history, including allocator failure at every '
+                   'point and inactive tables) and by the oracle clauses map-exact-entry, others-unchanged, new-level-empty, '
+                   'alloc-error-iff, fail-no-translation-change, inactive-leaves-active-identical, region-maps-exact-pages. '
+                   'Trusted: Lean kernel (+ propext, Classical.choice, Quot.sound), the theorem statements, the software MMU of the '
+                   'harness and the hardware walk of the model (x86-64 4-level paging, 4 KiB pages; huge-page bit = stop), differential '
+                   'testing is not a proof about the Go code. Domain: frames < 2^40, flags outside bits 12-51, pages outside slot 511.',
 )
